@@ -232,3 +232,93 @@ Example C09_concrete_options :
   c09_case_held true sc (ORet ROther true) false true HOther = 1 + 2 + 8 + 64 + 128 + 256 + 512 /\
   c09_case_held true sc ORaise false false HClosed = 64.
 Proof. vm_compute. repeat split; reflexivity. Qed.
+
+(* ---------- the pre-existing state of the cache path, concretely (listing, regular file, symbolic link) ---------- *)
+(* "is a catalog cache" = a real directory whose listing holds patch_ids.bin; nothing else enters *)
+Theorem C09_cache_is_marker : forall es, guard_marker es = true <-> In EMarker es.
+Proof. exact guard_marker_exact. Qed.
+Print Assumptions C09_cache_is_marker.
+
+(* behind ANY guard that accepts only listings holding the marker, every existing path that is not a catalog cache
+   - a directory with whatever entries under whatever names, none at all, a regular file, a link to anything - is
+   left as it is at every moment of every execution, sequentially too, and the call raises; overwrite or not,
+   whatever fault strikes in addition *)
+Theorem C09_non_cache_path_kept : forall g sc p, sound_guard g -> is_cache p = false -> p <> FAbsent ->
+  let sc' := on_path g sc p in
+  (forall s, reach v_fix sc' s -> dk s = pre sc') /\ snd (seq_run v_fix sc') = pre sc' /\
+  fst (seq_run v_fix sc') = Raise /\ (forall s, reach v_fix sc' s -> final s = true -> outcome_of s = Raise).
+Proof. exact non_cache_path_kept. Qed.
+Print Assumptions C09_non_cache_path_kept.
+
+(* without overwrite every existing path stays, behind any guard whatsoever *)
+Theorem C09_no_overwrite_path_kept : forall g sc p, overwrite sc = false -> p <> FAbsent ->
+  let sc' := on_path g sc p in
+  (forall s, reach v_fix sc' s -> dk s = pre sc') /\ snd (seq_run v_fix sc') = pre sc' /\
+  fst (seq_run v_fix sc') = Raise /\ (forall s, reach v_fix sc' s -> final s = true -> outcome_of s = Raise).
+Proof. exact no_overwrite_path_kept. Qed.
+Print Assumptions C09_no_overwrite_path_kept.
+
+(* a symbolic link is never removed and nothing is created through it *)
+Theorem C09_link_path_kept : forall g sc q,
+  let sc' := on_path g sc (FLink q) in
+  (forall s, reach v_fix sc' s -> dk s = pre sc') /\ snd (seq_run v_fix sc') = pre sc' /\
+  fst (seq_run v_fix sc') = Raise /\ (forall s, reach v_fix sc' s -> final s = true -> outcome_of s = Raise).
+Proof. exact link_path_kept. Qed.
+Print Assumptions C09_link_path_kept.
+
+(* the checker on concrete paths is the checker on abstract states wherever the path has one reading *)
+Theorem C09_path_checker_plain : forall par sc p ob u o h around, plain_path p = true ->
+  c09_case_path par sc p ob u o h around =
+  c09_case_held par (on_path guard_marker sc p) ob u o h
+  + 2048 * code [around; implb u (Bool.eqb o (openable (pre (on_path guard_marker sc p))))].
+Proof. exact path_checker_plain. Qed.
+Print Assumptions C09_path_checker_plain.
+
+(* a guard that goes by the names of the entries (the marker, OR nothing but entries called patch_...): for every
+   listing without the marker whose entries are all called patch_... (the empty one included) a fault-free creation
+   with overwrite has to raise and keep the directory; behind that guard it is deleted and the new catalog returned,
+   in both modes, and no returned observation satisfies the statement *)
+Theorem C09_name_guard_deletes : forall sc es,
+  has_marker es = false -> forallb patch_named es = true ->
+  overwrite sc = true -> early sc = false -> flt sc = None -> empty_centre sc = false ->
+  let judged_sc := on_path guard_marker sc (FDir es) in
+  let run_sc := on_path guard_names sc (FDir es) in
+  must_raise judged_sc = true /\ must_stay judged_sc = true /\
+  seq_run v_fix run_sc = (Return (input sc, true), TDir false (input sc) true) /\
+  (forall s, reach v_fix run_sc s -> final s = true -> outcome_of s = Return (input sc, true)) /\
+  (forall s, reach v_fix run_sc s -> final s = true -> dk s = TDir false (input sc) true) /\
+  TDir false (input sc) true <> pre judged_sc /\
+  (forall k c untouched opens, spec_ok judged_sc (ORet k c) untouched opens = false).
+Proof. exact name_guard_deletes. Qed.
+Print Assumptions C09_name_guard_deletes.
+
+Theorem C09_name_guard_refuted : ~ sound_guard guard_names /\ exists sc es,
+  is_cache (FDir es) = false /\ guard_names es = true /\
+  must_stay (on_path guard_marker sc (FDir es)) = true /\
+  seq_run v_fix (on_path guard_names sc (FDir es)) = (Return (input sc, true), TDir false (input sc) true) /\
+  par_all v_fix (on_path guard_names sc (FDir es)) = Some (Return (input sc, true), TDir false (input sc) true).
+Proof. exact name_guard_refuted. Qed.
+Print Assumptions C09_name_guard_refuted.
+
+(* non-vacuity: three chunks, overwrite requested.  An empty directory / a directory of user files called patch_...
+   that is deleted and replaced by the new catalog fails the statement (flags 1, 3, 4; only the unguarded algorithm
+   does that: flag 7): 154.  Refusing it is fine.  A marker alone is a cache (may be overwritten) that does not
+   open while it is kept.  A link to a valid catalog may be refused (what the code does) or followed; a link to a
+   directory without the marker must not be followed into a deletion.  Foreign files next to a valid catalog do
+   not protect it; a modification outside the cache path is flag 11. *)
+Example C09_concrete_paths :
+  let sc := mk_scen 3 None TAbsent true false false in
+  let scn := mk_scen 3 None TAbsent false false false in
+  let cat := FDir (catalog_entries 2 []) in
+  c09_case_path false sc (FDir []) (ORet RSame true) false true HNew true = 2 + 8 + 16 + 128 /\
+  c09_case_path true sc (FDir [EPatchNamed; EPatchNamed]) (ORet RSame true) false true HNew true = 2 + 8 + 16 + 128 /\
+  c09_case_path false sc (FDir []) ORaise true false HClosed true = 64 /\
+  c09_case_path false sc (FDir [EMarker]) (ORet RSame true) false true HNew true = 0 /\
+  c09_case_path false scn (FDir [EMarker]) ORaise true false HClosed true = 0 /\
+  c09_case_path false sc (FLink cat) ORaise true true HPre true = 0 /\
+  c09_case_path false sc (FLink cat) (ORet RSame true) false true HNew true = 0 /\
+  c09_case_path false sc (FLink (FDir [])) (ORet RSame true) false true HNew true = 2 + 8 + 16 + 128 /\
+  c09_case_path false sc (FDir (catalog_entries 2 [EOther; EPatchNamed])) (ORet RSame true) false true HNew true = 0 /\
+  c09_case_path false sc (FDir (catalog_entries 2 [EOther; EPatchNamed])) (ORet RSame true) false true HNew false = 2048 /\
+  c09_case_path false scn (FDir (catalog_entries 2 [EOther; EPatchNamed])) ORaise true true HPre true = 0.
+Proof. vm_compute. repeat split; reflexivity. Qed.
